@@ -181,6 +181,15 @@ Proof.
 Qed.
 End NewMeta.
 
+Lemma nm_meta_height p cb cs ilst_data it : mp4_height (nm_meta p cb cs ilst_data it) = 1 + Z.max 1 (mp4_height it).
+Proof.
+  unfold nm_meta. rewrite height_node. unfold nm_hdlr, nm_ilst, nm_free. cbn [mp4_forest_height].
+  rewrite height_shift, !height_leaf. pose proof (height_pos it). lia.
+Qed.
+
+Ltac split_max_le :=
+  repeat (rewrite Z.max_lub_iff || rewrite add_max_le || rewrite Z.add_assoc); repeat split.
+
 (* ------------------------------------------------------------------ the tree of the result of __save_new *)
 Section NewWf.
 Variables (f : list Z) (atoms : list mp4_atom).
@@ -351,7 +360,8 @@ Theorem new_wellformed_moov moov T1 T2 K rest f2 f' :
   let data := mp4_new_insert cb f moov ilst_data in
   mp4_update_parents (zlen data - 0) (splice f off 0 data) (map ma_off [moov]) = Ok f2 ->
   mp4_update_offsets atoms (zlen data - 0) off f2 = Ok f' ->
-  exists atoms', mp4_forest_ok f' true atoms' 0 (zlen f') = true.
+  exists atoms', mp4_forest_ok f' true atoms' 0 (zlen f') = true /\
+                 mp4_forest_height atoms' <= Z.max (mp4_forest_height atoms) (3 + Z.max 1 (mp4_height it)).
 Proof.
   intros Hp Ea Nm Km Hrev Hfirst off data R1 R2.
   set (cs := zlen f - off). set (m := mp4_new_meta cb cs ilst_data).
@@ -391,6 +401,14 @@ Proof.
   fold data delta in HM.
   exists (T1 ++ MAtom (ma_name moov) (ma_off moov) (ma_len moov + delta) (ma_hdr moov) (Some ([udta_new] ++ shift_forest delta K))
             :: shift_forest delta T2).
+  split.
+  2:{ rewrite Ea. rewrite !forest_height_app, !forest_height_cons, height_node, (height_kids _ _ Km).
+      rewrite forest_height_app, !forest_height_shift. unfold udta_new. cbn [mp4_forest_height]. rewrite height_node.
+      cbn [mp4_forest_height]. rewrite nm_meta_height.
+      pose proof (forest_height_nonneg T1) as P1. pose proof (forest_height_nonneg T2) as P2. pose proof (forest_height_nonneg K) as P3.
+      pose proof (height_pos it) as P4.
+      remember (mp4_forest_height T1) as h1. remember (mp4_forest_height T2) as h2. remember (mp4_forest_height K) as h3.
+      remember (mp4_height it) as h4. clear - P1 P2 P3 P4. split_max_le; lia. }
   apply forest_ok_app_intro with (m := ma_off moov).
   - apply (forest_ok_same f f' true T1 _ _ F1); [|lia|intros _; right; lia].
     apply (nw_before f atoms Hwf Htab [moov] moov rest Hp Hrev Hfirst cb ilst_data f2 f' R1 R2 _ _ _ _ F1); [unfold off; lia|].
@@ -418,7 +436,8 @@ Theorem new_wellformed_udta moov udta T1 T2 M1 M2 K rest f2 f' :
   let data := mp4_new_insert cb f udta ilst_data in
   mp4_update_parents (zlen data - 0) (splice f off 0 data) (map ma_off [moov; udta]) = Ok f2 ->
   mp4_update_offsets atoms (zlen data - 0) off f2 = Ok f' ->
-  exists atoms', mp4_forest_ok f' true atoms' 0 (zlen f') = true.
+  exists atoms', mp4_forest_ok f' true atoms' 0 (zlen f') = true /\
+                 mp4_forest_height atoms' <= Z.max (mp4_forest_height atoms) (3 + Z.max 1 (mp4_height it)).
 Proof.
   intros Hp Ea Nm Km Nu Ku Hrev Hfirst off data R1 R2.
   set (cs := zlen f - off).
@@ -481,6 +500,15 @@ Proof.
       apply not_in_by_off. intros A0 [<-|[<-|[]]]; lia. }
   exists (T1 ++ MAtom (ma_name moov) (ma_off moov) (ma_len moov + delta) (ma_hdr moov) (Some (M1 ++ udta' :: shift_forest delta M2))
             :: shift_forest delta T2).
+  split.
+  2:{ rewrite Ea. rewrite !forest_height_app, !forest_height_cons, height_node, (height_kids _ _ Km).
+      rewrite !forest_height_app, !forest_height_cons, !forest_height_shift. rewrite (height_kids _ _ Ku).
+      unfold udta'. rewrite height_node, forest_height_app, forest_height_shift. cbn [mp4_forest_height]. rewrite nm_meta_height.
+      pose proof (forest_height_nonneg T1) as P1. pose proof (forest_height_nonneg T2) as P2. pose proof (forest_height_nonneg K) as P3.
+      pose proof (height_pos it) as P4. pose proof (forest_height_nonneg M1) as P5. pose proof (forest_height_nonneg M2) as P6.
+      remember (mp4_forest_height T1) as h1. remember (mp4_forest_height T2) as h2. remember (mp4_forest_height K) as h3.
+      remember (mp4_height it) as h4. remember (mp4_forest_height M1) as h5. remember (mp4_forest_height M2) as h6.
+      clear - P1 P2 P3 P4 P5 P6. split_max_le; lia. }
   apply forest_ok_app_intro with (m := ma_off moov).
   - apply (forest_ok_same f f' true T1 _ _ F1); [|lia|intros _; right; lia].
     apply (nw_before f atoms Hwf Htab [moov; udta] udta rest Hp Hrev Hfirst cb ilst_data f2 f' R1 R2 _ _ _ _ F1); [unfold off; lia|].
